@@ -726,12 +726,11 @@ class Rinex212NavParser(ChainParser):
             ]
 
             self.data["toe"] = [
-                t + timedelta(seconds=SYSTEM_TIME_OFFSET_TO_GPS_SECOND.get(system, 0)) for t in self.data["toe"]
+                t + SYSTEM_TIME_OFFSET_TO_GPS_SECOND.get(system, 0) for t in self.data["toe"]
             ]
 
             self.data["transmission_time"] = [
-                t + timedelta(seconds=SYSTEM_TIME_OFFSET_TO_GPS_SECOND.get(system, 0))
-                for t in self.data["transmission_time"]
+                t + SYSTEM_TIME_OFFSET_TO_GPS_SECOND.get(system, 0) for t in self.data["transmission_time"]
             ]
 
             self.data["gnss_week"] = [
